@@ -83,6 +83,12 @@ def observe_misuse(ic: Any, cell: dict) -> Tuple[str, str]:
                 params = "_ARGS=1"
             elif m == "param_KWARGS":
                 params = "_KWARGS=1"
+            elif m in ("param_ARGS_kwonly", "param_KWARGS_kwonly"):
+                params = "x=1, *, {}=2".format("_ARGS" if m == "param_ARGS_kwonly" else "_KWARGS")
+            elif m == "param_ARGS_variadic":
+                params = "x=1, *_ARGS"
+            elif m == "param_KWARGS_variadic":
+                params = "x=1, **_KWARGS"
             elif m == "kw_ARGS":
                 params, call_args = "**kwargs", "_ARGS=1"
             elif m == "kw_KWARGS":
@@ -118,6 +124,13 @@ def observe_misuse(ic: Any, cell: dict) -> Tuple[str, str]:
                 def _never() -> bool:
                     return False
                 ns["PRE_VIOLATED"] = ic.require(_never)     # (a named condition: no source text has to be recovered)
+            elif m in ("kw_ARGS_pre_violated", "kw_KWARGS_pre_violated"):
+                # the function has NO **kwargs and a precondition the call violates: the reserved keyword is reported all
+                # the same (no condition may be evaluated with a shadowed placeholder first)
+                params, call_args = "x=1", "{}=1".format("_ARGS" if m == "kw_ARGS_pre_violated" else "_KWARGS")
+                def _never2() -> bool:
+                    return False
+                ns["PRE_VIOLATED"] = ic.require(_never2)
             elif m in ("param_result_kwonly", "param_OLD_kwonly"):
                 params = "x=1, *, {}=1".format(m.split("_")[1])
             elif m in ("param_result_posonly", "param_OLD_posonly"):
